@@ -260,6 +260,10 @@ func registerBigIntrinsics(eng *Engine) {
 		}
 		// low 64 bits of |x| (Go semantics); for non-negative x this is int2bv
 		t := x.(*Term)
+		inRange := w.tc.And(w.tc.IntCmp(OIntLe, w.tc.IntConst64(0), t), w.tc.IntCmp(OIntLe, t, w.tc.IntConst(maxU64)))
+		if w.sol.CheckWith(w.tc.Not(inRange)) == Unsat {
+			return t // proven in range on this path: keep as a mathematical integer
+		}
 		return simp(w.tc.Int2Bv(w.tc.IntAbs(t), 64))
 	}
 	in[B+"Int64"] = func(w *Worker, fr *frame, fn *ssa.Function, args []value) value {
@@ -267,7 +271,12 @@ func registerBigIntrinsics(eng *Engine) {
 		if c, ok := x.(*big.Int); ok {
 			return uint64(c.Int64())
 		}
-		return simp(w.tc.Int2Bv(x.(*Term), 64))
+		t := x.(*Term)
+		inRange := w.tc.And(w.tc.IntCmp(OIntLe, w.tc.IntConst(minI64), t), w.tc.IntCmp(OIntLe, t, w.tc.IntConst(maxI64)))
+		if w.sol.CheckWith(w.tc.Not(inRange)) == Unsat {
+			return t // proven in range on this path: keep as a mathematical integer
+		}
+		return simp(w.tc.Int2Bv(t, 64))
 	}
 	in[B+"String"] = func(w *Worker, fr *frame, fn *ssa.Function, args []value) value {
 		if p, _ := args[0].(*value); p == nil {
